@@ -421,6 +421,40 @@ def run(P, C):
     C.ob("MT-6", "walk_descents", "no-further-blocks-after-success", ok, W.loc(outer) if outer is not None else W.where(),
          "the block loop stops once a step was selected")
 
+    # ---------------- MT-8 global trial index
+    C.rule("MT-8", "trial j of block i always stands for the global step index i*n_threads+j: the same affine form selects the step length handed to "
+           "the worker, bounds the RUN loop, the completion check and the selection scan, and is compared with n_alpha-1 for the last step — so "
+           "the chosen step is min{k >= 1 : residual_k < residual_0} or the last one, for any block size", floor=4)
+    from . import vg as _vg
+    from ..core import Poly as _Poly
+    want = _Poly({("i", "n_threads"): 1}) + _Poly.atom("j")
+    posW = W.node_positions()
+    uses = []
+    for x in W.walk():
+        n_ = W.nodes[x]
+        if n_["k"] == "BinaryOperator" and n_["op"] in (">=", "=="):
+            l = core.poly(W, n_["ch"][0])
+            r = W.render(n_["ch"][1]).replace(" ", "")
+            if l == want and r in ("n_alpha", "(n_alpha-1)"):
+                uses.append((x, "bound" if r == "n_alpha" else "last"))
+        if n_["k"] == "ArraySubscriptExpr" and W.render(n_["ch"][0]) == "alpha" and "cv" not in W.nodes[W.strip(n_["ch"][1])] \
+                and x in posW and posW[x][0] in conc:
+            uses.append((x, "alpha" if core.poly(W, n_["ch"][1]) == want else "alpha-other:" + W.render(n_["ch"][1])))
+    kinds = [k for _x, k in uses]
+    C.ob("MT-8", "walk_descents", "step-handed-to-worker", kinds.count("alpha") >= 1 and not any(k.startswith("alpha-other") for k in kinds if k != "alpha"),
+         W.where(), "descent_trials[j].alpha = &alpha[i*n_threads + j] (other index forms into alpha: %s)" % [k for k in kinds if k.startswith("alpha-other")])
+    C.ob("MT-8", "walk_descents", "range-bounds", kinds.count("bound") == 3, W.where(),
+         "the RUN loop, the completion check and the selection scan all stop at i*n_threads + j >= n_alpha (%d of 3)" % kinds.count("bound"))
+    C.ob("MT-8", "walk_descents", "last-step-test", kinds.count("last") == 1, W.where(), "the fallback to the last step tests i*n_threads + j == n_alpha-1")
+    # the reference residual is the one of global index 0
+    ref = [x for x in W.walk() if W.k(x) == "IfStmt" and W.render(W.nodes[x]["cond"]).replace(" ", "") == "((i==0)&&(j==0))"]
+    okr = bool(ref) and "(res=descent_trials[j].residual)" in W.render(W.nodes[ref[0]]["then"]).replace(" ", "")
+    C.ob("MT-8", "walk_descents", "reference-residual", okr, W.loc(ref[0]) if ref else W.where(), "res is the residual of global step 0 (alpha = 0)")
+    blk = [W.render(d["init"]).replace(" ", "") for x in W.walk() if W.k(x) == "DeclStmt" for d in W.nodes[x]["decls"] if d.get("name") == "n_blocks" and d.get("init", -1) >= 0]
+    blk += [W.render(ts_assign[1]).replace(" ", "") for ts_assign in [__import__("psv.rules.ts", fromlist=["x"]).assign_parts(W, x) for x in W.walk()] if ts_assign and ts_assign[1] is not None and W.render(ts_assign[0]) == "n_blocks"]
+    C.ob("MT-8", "walk_descents", "block-count", any("ceil((n_alpha/(double)n_threads))" in b or "ceil(n_alpha/(double)n_threads)" in b.replace("((double)n_threads)", "(double)n_threads") for b in blk), W.where(),
+         "blocks cover all steps: n_blocks = ceil(n_alpha / n_threads): %s" % blk)
+
     # ---------------- MT-7 shared objects
     struct = None
     for q, c in P.classes.items():
